@@ -64,7 +64,8 @@ def generate(tier, rng):
                     ops.append({"op": "new", "kind": "ro"})      # a target class with a read-only property `ro`
                     final[n] = "ro"
                 else:
-                    ops.append({"op": "new"})
+                    k = rng.choice([None, None, "falsy", "eq"])     # targets that are falsy / compare equal to every node
+                    ops.append({"op": "new", "kind": k} if k else {"op": "new"})
                     final[n] = "any"
                 n += 1
             elif r < 0.3 and n < 8:
